@@ -53,6 +53,11 @@ class SimEnv(object):
     # ------------------------------------------------------------------ context
     def __enter__(self):
         import sys
+        import gc
+        # garbage of earlier worlds (Session.__del__ -> shutdown ...) must not be finalised at an arbitrary point inside
+        # this world: collect it now and keep the collector off for the (short) life of the world
+        gc.collect()
+        gc.disable()
         w, p = self.world, self.prims
         w.attach_main()
         _CURRENT[0] = w
@@ -90,7 +95,14 @@ class SimEnv(object):
                 except Exception:
                     pass
             leaked = self.world.close()
+            # finalise this world's garbage now (Session.__del__ -> shutdown ...) while the module names still point at the dead
+            # world's inert primitives - otherwise it is collected at an arbitrary point inside a later world and perturbs it
+            import gc
+            self.clusters = []
+            gc.collect()
         finally:
+            import gc as _gc
+            _gc.enable()
             for (mn, name), val in self._saved.items():
                 setattr(sys.modules[mn], name, val)
             self._saved.clear()
